@@ -224,15 +224,44 @@ fn gen(a: &Args) {
         return;
     }
     let mut rng = Rng::new(a.seed);
-    let (ntables, per_table) = if a.thorough() { (400, 60) } else { (60, 30) };
+    // ---- structured stream: every leaf shape over a small domain, wrapped and combined
+    {
+        let t = small_domain_table("t");
+        let leaves = small_domain_leaves();
+        if sut.load(&t).is_ok() {
+            for l in &leaves {
+                emit(&mut w, &mut sut, Shape::Where, 0, &t, l, "structured");
+                emit(&mut w, &mut sut, Shape::Select, 0, &t, l, "structured");
+                for wrapped in [Expr::not(l.clone()), Expr::is_null(false, l.clone()), Expr::not(Expr::not(l.clone()))] {
+                    let sty = if wrapped.has_bare() && rng.chance(1, 2) { 1 } else { 0 };
+                    emit(&mut w, &mut sut, Shape::Where, sty, &t, &wrapped, "structured");
+                    if a.thorough() || rng.chance(1, 6) { emit(&mut w, &mut sut, Shape::Select, sty, &t, &wrapped, "structured"); }
+                }
+            }
+            // pairs of leaves under AND / OR: all of them (thorough) or a sample (quick)
+            let n = leaves.len();
+            let pairs: Vec<(usize, usize)> = if a.thorough() { (0..n).flat_map(|i| (0..n).map(move |j| (i, j))).collect() }
+                                             else { (0..500).map(|_| (rng.below(n as u64) as usize, rng.below(n as u64) as usize)).collect() };
+            for (i, j) in pairs {
+                let e = if rng.chance(1, 2) { Expr::and(leaves[i].clone(), leaves[j].clone()) } else { Expr::or(leaves[i].clone(), leaves[j].clone()) };
+                if rng.chance(1, 2) { emit(&mut w, &mut sut, Shape::Where, 0, &t, &e, "structured"); } else { emit(&mut w, &mut sut, Shape::Select, 0, &t, &e, "structured"); }
+            }
+        } else { w.count("setup_failed", 1); }
+    }
+    // ---- random streams
+    let (ntables, per_table) = if a.thorough() { (420, 50) } else { (84, 24) };
     for k in 0..ntables {
-        // three streams: `plain` stays inside the fragment where TurDB is expected to be right
-        // (no NOT, no negated forms, no NULL / boolean literals), `full` uses everything,
-        // `wide` adds extreme numbers, tiny floats and awkward text
-        let (stream, cfg) = match k % 5 {
-            0 | 1 => ("plain", GenCfg { allow_not: false, allow_neg_forms: false, allow_null_lit: false, allow_bool_lit: false, allow_pred_operand: false, ..GenCfg::default() }),
-            2 | 3 => ("full", GenCfg::default()),
-            _ => ("wide", GenCfg { wide_values: true, ..GenCfg::default() }),
+        // `plain` stays inside the fragment where TurDB is expected to be right (no NOT, no negated
+        // forms, no NULL / boolean literals; every other table with few NULLs), `full` uses
+        // everything, `wide` adds extreme numbers, tiny floats and awkward text, `mixed` also
+        // compares unrelated types (outside the reference semantics; the model still has to
+        // predict the implementation)
+        let (stream, cfg) = match k % 7 {
+            0 | 1 | 2 => ("plain", GenCfg { allow_not: false, allow_neg_forms: false, allow_null_lit: false, allow_bool_lit: false, allow_pred_operand: false,
+                                            null_pct: if k % 2 == 0 { 25 } else { 8 }, ..GenCfg::default() }),
+            3 | 4 => ("full", GenCfg::default()),
+            5 => ("wide", GenCfg { wide_values: true, ..GenCfg::default() }),
+            _ => ("mixed", GenCfg { wide_values: true, allow_mismatch: true, ..GenCfg::default() }),
         };
         let t = gen_table(&mut rng, "t", &cfg);
         if let Err(m) = sut.load(&t) {
@@ -245,9 +274,9 @@ fn gen(a: &Args) {
             let e = gen_pred(&mut rng, &t, &cfg, depth);
             // style 1 (bare NOT) only where it changes the text, and only sometimes
             let sty: u8 = if e.has_bare() && rng.chance(1, 3) { 1 } else { 0 };
-            match rng.below(5) {
-                0 | 1 => emit(&mut w, &mut sut, Shape::Where, sty, &t, &e, stream),
-                2 => emit(&mut w, &mut sut, Shape::Select, sty, &t, &e, stream),
+            match rng.below(8) {
+                0..=4 => emit(&mut w, &mut sut, Shape::Where, sty, &t, &e, stream),
+                5 => emit(&mut w, &mut sut, Shape::Select, sty, &t, &e, stream),
                 _ => { emit(&mut w, &mut sut, Shape::Where, sty, &t, &e, stream); emit(&mut w, &mut sut, Shape::Select, sty, &t, &e, stream); }
             }
         }
@@ -279,11 +308,15 @@ fn search(a: &Args) {
             if sems.iter().any(|s| s.is_none()) { continue; }
             let want_rows: Vec<i64> = sems.iter().map(|s| if *s == Some(Tv::T) { 1 } else { 0 }).collect();
             let want_vals: Vec<i64> = sems.iter().map(|s| match s { Some(Tv::T) => 1, Some(Tv::F) => 0, _ => 2 }).collect();
-            if sut.observe_where(0, &t, &e) != QOut::Rows(want_rows) && fails.len() < 40 {
-                fails.push(format!("{} #k={}", replay_line(Shape::Where, 0, &t, &e), rough_class(Shape::Where, &t, &e)));
+            let ow = sut.observe_where(0, &t, &e);
+            if ow != QOut::Rows(want_rows) {
+                let k = rough_class(Shape::Where, &t, &e, &ow);
+                if fails.len() < 60 && (k == 0 || fails.len() < 30) { fails.push(format!("{} #k={}", replay_line(Shape::Where, 0, &t, &e), k)); }
             }
-            if sut.observe_select(0, &t, &e) != QOut::Vals(want_vals) && fails.len() < 40 {
-                fails.push(format!("{} #k={}", replay_line(Shape::Select, 0, &t, &e), rough_class(Shape::Select, &t, &e)));
+            let os = sut.observe_select(0, &t, &e);
+            if os != QOut::Vals(want_vals) {
+                let k = rough_class(Shape::Select, &t, &e, &os);
+                if fails.len() < 60 && (k == 0 || fails.len() < 30) { fails.push(format!("{} #k={}", replay_line(Shape::Select, 0, &t, &e), k)); }
             }
             if tried >= budget { break 'outer; }
         }
@@ -296,9 +329,60 @@ fn search(a: &Args) {
     std::fs::write(&a.out, out).expect("write search output");
 }
 
-/// rough syntactic tag of the recorded finding classes (search mode only; the authoritative
-/// classification is known_class in coq/Corr/C14.v)
-fn rough_class(_shape: Shape, _t: &Table, _e: &Expr) -> u32 { 0 }
+/// rough tag of the recorded finding classes for a failing case (search mode only; the
+/// authoritative classification is known_class in coq/Corr/C14.v / Model/PredClass.v)
+fn rough_class(shape: Shape, t: &Table, e: &Expr, out: &QOut) -> u32 {
+    let null_on_some_row = |x: &Expr| t.rows.iter().any(|r| matches!(eval(x, r), Some(Val::Null)));
+    let mut k = 0u32;
+    let mut set = |c: u32| { if k == 0 { k = c; } };
+    if shape == Shape::Where {
+        if matches!(out, QOut::Err(_)) { return 8; }
+        // NOT (or a non-boolean leaf) in predicate position
+        fn pred_not(e: &Expr) -> bool {
+            match e {
+                Expr::And(a, b) | Expr::Or(a, b) => pred_not(a) || pred_not(b),
+                Expr::Not(_) | Expr::Col(_) | Expr::Arith(..) => true,
+                Expr::Lit(Val::Bool(_)) => false,
+                Expr::Lit(_) => true,
+                _ => false,
+            }
+        }
+        if pred_not(e) { return 1; }
+    }
+    e.walk(&mut |x| match x {
+        Expr::Lit(Val::Int(i64::MIN)) => set(11),
+        Expr::IsNull(_, a) if a.is_boolean_form() && !matches!(**a, Expr::Lit(Val::Null)) => set(5),
+        Expr::Cmp(op, a, b) => {
+            if let (Expr::Lit(x), Expr::Lit(y)) = (&**a, &**b) {
+                if matches!(op, CmpOp::Eq | CmpOp::Ne) && shape == Shape::Where && (x.is_null() || y.is_null() || std::mem::discriminant(x) != std::mem::discriminant(y)) { set(7); }
+            }
+            if shape == Shape::Where && matches!(op, CmpOp::Eq | CmpOp::Le | CmpOp::Ge) && t.rows.iter().any(|r| matches!((eval(a, r), eval(b, r)), (Some(Val::Null), Some(Val::Null)))) { set(2); }
+        }
+        Expr::In(neg, a, l) => {
+            if shape == Shape::Where {
+                if *neg && (null_on_some_row(a) || l.iter().any(|i| null_on_some_row(i))) { set(4); }
+                if !*neg && null_on_some_row(a) && l.iter().any(|i| null_on_some_row(i)) { set(3); }
+            }
+            if l.iter().any(|i| t.rows.iter().any(|r| matches!((eval(a, r), eval(i, r)), (Some(Val::Float(_)), Some(_)) | (Some(_), Some(Val::Float(_)))))) { set(10); }
+        }
+        Expr::Between(true, a, lo, hi) if shape == Shape::Where => { if null_on_some_row(a) || null_on_some_row(lo) || null_on_some_row(hi) { set(4); } }
+        Expr::Like(neg, a, p) => {
+            if shape == Shape::Where && *neg && (null_on_some_row(a) || null_on_some_row(p)) { set(4); }
+            if t.rows.iter().any(|r| matches!((eval(a, r), eval(p, r)), (Some(Val::Text(s)), Some(Val::Text(q))) if s.contains(&b'%') && q.contains(&b'%'))) { set(9); }
+        }
+        _ => {}
+    });
+    if k == 0 && shape == Shape::Select {
+        // an UNKNOWN sub-predicate (or a NULL operand of BETWEEN) on some row
+        let mut unk = false;
+        e.walk(&mut |x| {
+            if x.is_boolean_form() && t.rows.iter().any(|r| sem3(x, r) == Some(Tv::U)) { unk = true; }
+            if let Expr::Between(_, a, lo, hi) = x { if null_on_some_row(a) || null_on_some_row(lo) || null_on_some_row(hi) { unk = true; } }
+        });
+        if unk { k = 6; }
+    }
+    k
+}
 
 // ------------------------------------------------------------------ debug helper
 fn show(v: &OwnedValue) -> String {
